@@ -12,6 +12,7 @@ matrix.
 
 import base64
 import gc
+import hashlib
 import logging
 import os
 import random
@@ -30,21 +31,30 @@ RULE = ("generated: grammar-valid requests/responses with legitimate variation (
         "token lists, split list headers, trailing frame) = must-accept; each with exactly one required element removed / "
         "duplicated / corrupted or one policy violated (version list, origin allow-list look-alikes, connection limit, "
         "subprotocol, extension) = must-reject; leniencies = grey; byte-mutated, random, oversized, truncated and web-status "
-        "inputs = hostile. Every case runs under one of 5 read segmentations (incl. 1-byte trickle) in the Twisted and the "
-        "asyncio world. A case is non-trivial when the handshake monitor compared an outcome with a classifier verdict; "
-        "distinct = hash(kind, class tag, configuration, segmentation policy, octets).")
+        "inputs = hostile (classified by the same oracle, the verdict is enforced). Systematic part: every reject mutation x every "
+        "segmentation policy, every origin look-alike of every allow-list x both origin headers, every connection-limit boundary "
+        "(limit-1, limit, limit+1, limit+2 with 0-2 closed earlier connections), every wrong-digest variant. Random part: the rest, plus "
+        "client URL component grids and the client x server option matrix. Every case runs under one of 5 read segmentations (incl. "
+        "1-byte trickle) in the Twisted and the asyncio world. A case is non-trivial when the handshake monitor compared an outcome with "
+        "a classifier verdict (or the matrix oracle); distinct = hash(framework, kind, class tag, configuration, segmentation policy, octets).")
 ASSUMPTIONS = [
     "oracle = vf/c07_handshake.py (RFC 6455 s4/s9.1/s11.3, RFC 7230 s3, RFC 4648, RFC 7692 s7), self-checked against the RFC's own example handshake",
-    "grey (either outcome tolerated, only crash-freedom and post-conditions asserted): int()-style numbers, repeated blanks, obs-fold, bare CR/LF line ends, control characters, HTTP/1.2+, absolute-form targets, non-canonical base64 padding bits, duplicate Sec-WebSocket-Version/Origin, malformed Origin serializations, Host port != externalPort, header blocks > 8 KiB, permessage-deflate parameters outside RFC 7692, server_max_window_bits=8",
+    "grey (either outcome tolerated, only crash-freedom and post-conditions asserted): int()-style numbers, repeated blanks, obs-fold, bare CR/LF line ends, control characters (incl. VT/FF/FS/GS/RS used as pseudo line ends), HTTP/1.2+, absolute-form targets, non-canonical base64 padding bits, duplicate Sec-WebSocket-Version/Origin, malformed Origin serializations, Host port != externalPort, permessage-deflate parameters outside RFC 7692, server_max_window_bits=8, other PMCEs than permessage-deflate, repeated extensions, empty/cased/listed subprotocol in a response",
+    "grey: octets >= 0x80 INSIDE a field the handshake reads (str.strip() also strips NBSP/NEL); obs-text in any OTHER field is legal field-content and must not change the reading of the handshake fields, so there the verdict stands (this is what exposes the U+0085 line split)",
+    "grey: Sec-WebSocket-Extensions split over several field lines in a REQUEST (RFC 6455 9.1/11.3.2 allow it, the library answers 400; section 4 - the scope of the property statement - is silent), reported as an observation only",
+    "grey: which origin header (Origin / Sec-WebSocket-Origin) counts for hybi drafts 11/12 (version 8 on the wire) in the client x server matrix",
+    "a refused must-accept input is a violation whatever the refusal looks like; a must-reject input must never reach OPEN (not even transiently: every assignment to protocol.state is recorded), must not produce a 101 and must leave the transport closing; when only the CLIENT's accept policy declines a negotiated extension the server side may legitimately be open until the client drops",
+    "admitted = still OPEN after openHandshakeTimeout + 1.5 s of virtual time (checked when no octets follow the header block); waiting endpoints must have asked to close their transport by t + openHandshakeTimeout + 1 s (the batched timer fires up to 1 s early, never late)",
     "origin allow-list semantics = documented one: '*' wildcards, whole-string match against scheme://host:port with the default port made explicit",
     "fake transports: after the endpoint asked to close its transport no further octets are delivered (as Twisted's loseConnection/asyncio's close stop reading)",
     "ws:// URLs only for the endpoint tests (no TLS machinery); wss:// only for request construction (Host port default 443)",
     "replays of client cases re-inject the recorded 16-byte nonce through os.urandom",
 ]
-DECIDING = {"server_must_accept_opened": 200, "server_must_reject_refused": 200, "server_reject_classes": 25,
-            "client_must_accept_opened": 100, "client_must_reject_refused": 100, "client_reject_classes": 12,
-            "digests_recomputed": 200, "client_requests_compared": 100, "hostile_inputs_monitored": 500,
-            "timeouts_evaluated": 20, "matrix_pairs_opened": 50, "grey_cases": 50}
+DECIDING = {"server_must_accept_opened": 200, "server_must_reject_refused": 200, "server_reject_classes": 15, "server_reject_mutations": 25,
+            "client_must_accept_opened": 100, "client_must_reject_refused": 100, "client_reject_classes": 10, "client_reject_mutations": 20,
+            "digests_recomputed": 200, "client_requests_compared": 100, "hostile_inputs_monitored": 500, "open_after_timeout_checked": 100,
+            "timeouts_evaluated": 20, "oversized_dropped_at_timeout": 5, "matrix_pairs_opened": 50, "matrix_pairs_refused": 20,
+            "matrix_messages_exchanged": 50, "grey_cases": 50, "segmentations": 15}
 
 OPEN_TIMEOUT = 5
 
@@ -150,17 +160,1551 @@ def escape_key(role, exc):
     return "C07/%s/escaped/%s/%s/%s" % (role, type(exc).__name__, func, line)
 
 
-def seg_lengths(rng, data, policy):
+
+
+SEG_SMALL_ONLY = ["whole", "bytewise", "random", "halves", "small"]
+SEG_BIG = ["whole", "random", "halves"]
+
+
+def _w(rng, table):
+    tot = sum(wt for wt, _ in table)
+    x = rng.random() * tot
+    for wt, v in table:
+        x -= wt
+        if x < 0:
+            return v
+    return table[-1][1]
+
+
+def case_data(case):
+    if "recipe" in case:
+        r = case["recipe"]
+        return bytes.fromhex(r["pre"]) + bytes.fromhex(r["unit"]) * r["n"] + bytes.fromhex(r["post"])
+    return bytes.fromhex(case["data"])
+
+
+def case_segments(case, data):
     from vf.world import segmentations
 
-    return [len(x) for x in segmentations(rng, data, policy)]
+    return segmentations(random.Random(case["segseed"]), data, case["seg"])
 
 
-def cut(data, lengths):
-    out, i = [], 0
-    for n in lengths:
-        out.append(data[i:i + n])
-        i += n
-    if i < len(data):
-        out.append(data[i:])
-    return [x for x in out if x]
+def finish_case(rng, case, data=None):
+    """Attach octets + a segmentation policy (seeded) to a case."""
+    if data is not None:
+        case["data"] = data.hex()
+        n = len(data)
+    else:
+        r = case["recipe"]
+        n = (len(r["pre"]) + len(r["unit"]) * r["n"] + len(r["post"])) // 2
+    case["seg"] = rng.choice(SEG_SMALL_ONLY if n <= 6000 else SEG_BIG)
+    case["segseed"] = rng.getrandbits(32)
+    return case
+
+
+# ------------------------------------------------------------------------------------------------
+# server side: configurations and requests
+# ------------------------------------------------------------------------------------------------
+
+def gen_server_cfg(rng, want=None):
+    sc = rng.choice(ORIGIN_SCENARIOS) if rng.random() < 0.6 else ORIGIN_SCENARIOS[0]
+    cfg = {"versions": rng.choice([[8, 13], [8, 13], [13], [8], [13, 8]]), "scenario": sc["name"], "origins": list(sc["allowed"]),
+           "null": rng.random() < 0.5, "maxc": 0, "prior": 0, "closed": 0, "xport": rng.choice([None, None, None, 9000, 443]),
+           "webstatus": rng.random() < 0.7, "protos": rng.sample(PROTO_POOL, rng.randint(0, 4)), "pmce": rng.random() < 0.5,
+           "trust": rng.choice([0, 0, 1, 2]), "oht": rng.choice([1, 2, 5]), "flash": rng.random() < 0.05}
+    if want == "limit" or (want is None and rng.random() < 0.25):
+        cfg["maxc"] = rng.randint(1, 4)
+        cfg["prior"] = rng.randint(0, cfg["maxc"] + 2)
+        cfg["closed"] = rng.randint(0, cfg["prior"]) if rng.random() < 0.5 else 0
+    return cfg
+
+
+def conn_index(cfg):
+    return cfg["prior"] - cfg["closed"] + 1
+
+
+def oracle_server_cfg(cfg):
+    return H.ServerCfg(versions=cfg["versions"], allowed_origins=cfg["origins"], allow_null_origin=cfg["null"],
+                       max_connections=cfg["maxc"], conn_index=conn_index(cfg), external_port=cfg["xport"],
+                       web_status=cfg["webstatus"])
+
+
+def scenario_of(cfg):
+    for sc in ORIGIN_SCENARIOS:
+        if sc["name"] == cfg["scenario"]:
+            return sc
+    return ORIGIN_SCENARIOS[0]
+
+
+OWS_PRE = ["", " ", " ", " ", "  ", "\t", " \t"]
+OWS_POST = ["", "", "", " ", "\t"]
+
+
+def accept_request_spec(rng, cfg):
+    """A strictly grammar-valid request that satisfies RFC 6455 section 4 and the configured policy, with legitimate variation."""
+    ver = rng.choice(cfg["versions"])
+    hosts = [x for x in HOSTS if cfg["xport"] is None or ":" not in x.replace("[::1]", "") or x.endswith(":%d" % cfg["xport"])]
+    if cfg["xport"] and rng.random() < 0.5:
+        hosts = ["server.example.com:%d" % cfg["xport"], "[::1]:%d" % cfg["xport"]]
+    hs = [["Host", rng.choice(hosts)],
+          ["Upgrade", rng.choice(["websocket", "websocket", "WebSocket", "WEBSOCKET", "wEbSoCkEt", "foo, websocket", "websocket, h2c",
+                                  "IRC/6.9, websocket"])],
+          ["Connection", rng.choice(["Upgrade", "Upgrade", "upgrade", "UPGRADE", "keep-alive, Upgrade", "Upgrade, keep-alive",
+                                     "keep-alive,Upgrade", "foo , upgrade , bar"])],
+          ["Sec-WebSocket-Key", rand_key(rng)], ["Sec-WebSocket-Version", str(ver)]]
+    sc = scenario_of(cfg)
+    r = rng.random()
+    oname = "Origin" if ver >= 13 else "Sec-WebSocket-Origin"
+    if r < 0.55:
+        hs.append([oname, rng.choice(sc["accept"])])
+    elif r < 0.65 and cfg["null"]:
+        hs.append([oname, "null"])
+    elif r < 0.72:
+        # the OTHER version's origin header is not looked at (4.2.1 item 7 / hybi-08)
+        hs.append(["Sec-WebSocket-Origin" if ver >= 13 else "Origin", "http://not-looked-at.example"])
+    if rng.random() < 0.5:
+        hs.append(["Sec-WebSocket-Protocol", rng.choice([", ", ",", " , "]).join(rng.sample(PROTO_POOL, rng.randint(1, 4)))])
+    if rng.random() < 0.4:
+        hs.append(["Sec-WebSocket-Extensions", rng.choice(EXT_OFFERS)])
+    for n, v in rng.sample(EXTRA_HEADERS, rng.randint(0, 4)):
+        hs.append([n, v])
+    if cfg["trust"] and rng.random() < 0.7:
+        hs.append(["X-Forwarded-For", rng.choice(["10.0.0.1", "10.0.0.1, 10.0.0.2", "a, b, c, d", ""])])
+    hs = [e for e in hs]
+    # split list-valued headers over two field lines (RFC 7230 3.2.2)
+    if rng.random() < 0.2:
+        for i, e in enumerate(hs):
+            if e[0] in ("Connection", "Sec-WebSocket-Protocol", "Upgrade") and "," in e[1] and rng.random() < 0.6:
+                parts = [x.strip() for x in e[1].split(",")]
+                k = rng.randint(1, len(parts) - 1)
+                hs[i] = [e[0], ", ".join(parts[:k])]
+                hs.insert(i + 1, [e[0], ", ".join(parts[k:])])
+                break
+    if rng.random() < 0.7:
+        rng.shuffle(hs)
+    spec = {"line": "GET %s HTTP/1.1" % rng.choice(TARGETS),
+            "h": [[rand_case(rng, n) if rng.random() < 0.5 else n, v, rng.choice(OWS_PRE), rng.choice(OWS_POST)] for n, v in hs]}
+    return spec, ver
+
+
+def trailing_client_frame(rng):
+    mask = bytes(rng.getrandbits(8) for _ in range(4))
+    return ref.encode_frame(ref.OP_TEXT, b"vf-trailing-%d" % rng.randrange(1000), mask=mask)
+
+
+# --- must-reject: exactly one required element removed / duplicated / corrupted, or one policy violated ----------------
+
+def _bad_keys(rng):
+    k = rand_key(rng)
+    return [k[:-1], k[:-2], k[:-3] + "=", k + "=", k[:10] + "-" + k[11:], k[:5] + "_" + k[6:], k[:3] + "*" + k[4:], "",
+            base64.b64encode(bytes(20)).decode(), base64.b64encode(bytes(15)).decode(), k[:12] + "=" + k[13:], k[:21] + "===",
+            k.replace("=", "") + "AA", "x" * 24, k[:22] + "=A"]
+
+
+def server_reject_mutations(cfg):
+    """name -> callable(rng, spec, ver, cfg) mutating the spec in place (may also edit cfg); returns False when not applicable."""
+    def method(rng, sp, ver, cfg):
+        sp["line"] = sp["line"].replace("GET", rng.choice(["POST", "HEAD", "PUT", "OPTIONS", "get", "Get", "DELETE", "GETT", "CONNECT"]), 1)
+
+    def http_version(rng, sp, ver, cfg):
+        sp["line"] = sp["line"].replace("HTTP/1.1", rng.choice(["HTTP/1.0", "HTTP/0.9", "HTTP/1.0", "HTTP/0.1"]))
+
+    def host_missing(rng, sp, ver, cfg):
+        hdel(sp, "Host")
+
+    def host_duplicate(rng, sp, ver, cfg):
+        hdup(sp, "Host", rng.choice([None, "other.example.com", hget(sp, "Host")]))
+
+    def host_duplicate_far(rng, sp, ver, cfg):
+        sp["h"].append(["Host", hget(sp, "Host"), " ", ""])
+
+    def upgrade_missing(rng, sp, ver, cfg):
+        hdel(sp, "Upgrade")
+
+    def upgrade_wrong(rng, sp, ver, cfg):
+        hdel(sp, "Upgrade")
+        sp["h"].insert(1, ["Upgrade", rng.choice(["websockets", "h2c", "web-socket", "websocke", "TLS/1.0", "", "ws", "xwebsocket", "websocket2",
+                                                  "h2c, TLS/1.0"]), " ", ""])
+
+    def connection_missing(rng, sp, ver, cfg):
+        hdel(sp, "Connection")
+
+    def connection_wrong(rng, sp, ver, cfg):
+        hdel(sp, "Connection")
+        sp["h"].insert(1, ["Connection", rng.choice(["keep-alive", "close", "upgraded", "", "Upgrad", "keep-alive, close", "xupgrade",
+                                                     "up-grade"]), " ", ""])
+
+    def key_missing(rng, sp, ver, cfg):
+        hdel(sp, "Sec-WebSocket-Key")
+
+    def key_duplicate(rng, sp, ver, cfg):
+        hdup(sp, "Sec-WebSocket-Key", rng.choice([None, rand_key(rng)]))
+
+    def key_invalid(rng, sp, ver, cfg):
+        hset(sp, "Sec-WebSocket-Key", rng.choice(_bad_keys(rng)))
+
+    def version_missing(rng, sp, ver, cfg):
+        hdel(sp, "Sec-WebSocket-Version")
+
+    def version_unsupported(rng, sp, ver, cfg):
+        cands = [v for v in (0, 1, 7, 9, 12, 14, 25, 130, 255, 999, 8, 13) if v not in cfg["versions"]]
+        hset(sp, "Sec-WebSocket-Version", str(rng.choice(cands)))
+
+    def version_other_configured(rng, sp, ver, cfg):
+        # the server is configured for ONE version; the client asks for the other supported one
+        if len(cfg["versions"]) != 1:
+            cfg["versions"] = [ver]
+        other = 8 if ver == 13 else 13
+        hset(sp, "Sec-WebSocket-Version", str(other))
+        # keep the origin header of the version the request now claims
+        for e in sp["h"]:
+            if e[0].lower() in ("origin", "sec-websocket-origin"):
+                e[0] = "Origin" if other >= 13 else "Sec-WebSocket-Origin"
+
+    def version_garbage(rng, sp, ver, cfg):
+        hset(sp, "Sec-WebSocket-Version", rng.choice(["abc", "", "x", "thirteen", "-", "v", "#"]))
+
+    def protocol_duplicate(rng, sp, ver, cfg):
+        hdel(sp, "Sec-WebSocket-Protocol")
+        mode = rng.randrange(3)
+        if mode == 0:
+            sp["h"].append(["Sec-WebSocket-Protocol", rng.choice(["chat, chat", "a,b,a", "chat,superchat,chat", "x, y, z, y"]), " ", ""])
+        elif mode == 1:
+            sp["h"].append(["Sec-WebSocket-Protocol", "chat", " ", ""])
+            sp["h"].insert(0, ["Sec-WebSocket-Protocol", "chat", " ", ""])
+        else:
+            sp["h"].append(["Sec-WebSocket-Protocol", "wamp.2.json, chat", " ", ""])
+            sp["h"].insert(1, ["sec-websocket-protocol", "superchat, wamp.2.json", "", ""])
+
+    def origin_lookalike(rng, sp, ver, cfg):
+        scs = [s for s in ORIGIN_SCENARIOS if s["reject"]]
+        sc = rng.choice(scs)
+        cfg["scenario"], cfg["origins"] = sc["name"], list(sc["allowed"])
+        hdel(sp, "Origin")
+        hdel(sp, "Sec-WebSocket-Origin")
+        kind, o = rng.choice(sc["reject"])
+        sp["h"].append(["Origin" if ver >= 13 else "Sec-WebSocket-Origin", o, " ", ""])
+        sp["_sub"] = kind
+
+    def origin_null(rng, sp, ver, cfg):
+        cfg["null"] = False
+        hdel(sp, "Origin")
+        hdel(sp, "Sec-WebSocket-Origin")
+        sp["h"].append(["Origin" if ver >= 13 else "Sec-WebSocket-Origin", "null", " ", ""])
+
+    def max_connections(rng, sp, ver, cfg):
+        cfg["maxc"] = rng.randint(1, 4)
+        cfg["closed"] = rng.randint(0, 2)
+        cfg["prior"] = cfg["maxc"] + cfg["closed"] + rng.choice([0, 0, 1, 3])
+
+    def smuggle_nel(rng, sp, ver, cfg):
+        # a REQUIRED field exists only inside the value of another field, behind U+0085 (legal obs-text, not a line end)
+        name = rng.choice(["Upgrade", "Connection", "Sec-WebSocket-Key", "Sec-WebSocket-Version", "Host"])
+        for i, e in enumerate(sp["h"]):
+            if e[0].lower() == name.lower():
+                sp["h"][i] = ["X-Note", "a\x85%s: %s" % (e[0], e[1]), " ", ""]
+        sp["_sub"] = name.lower()
+
+    return {"method": method, "http-version": http_version, "host-missing": host_missing, "host-duplicate": host_duplicate,
+            "host-duplicate-far": host_duplicate_far, "upgrade-missing": upgrade_missing, "upgrade-wrong": upgrade_wrong,
+            "connection-missing": connection_missing, "connection-wrong": connection_wrong, "key-missing": key_missing,
+            "key-duplicate": key_duplicate, "key-invalid": key_invalid, "version-missing": version_missing,
+            "version-unsupported": version_unsupported, "version-other-configured": version_other_configured,
+            "version-garbage": version_garbage, "protocol-duplicate": protocol_duplicate, "origin-lookalike": origin_lookalike,
+            "origin-null": origin_null, "max-connections": max_connections, "smuggle-nel": smuggle_nel}
+
+
+# --- grey: leniencies; either outcome is tolerated -------------------------------------------------------------------------
+
+def server_grey_mutations():
+    def version_lenient(rng, sp, ver, cfg):
+        s = str(ver)
+        hset(sp, "Sec-WebSocket-Version", rng.choice(["+" + s, "0" + s, s[0] + "_" + s[1:] if len(s) > 1 else "0_" + s, s + ".0", "0x" + s,
+                                                      s + " " + s, s + "," + s, "1e1", s + ";q=1"]))
+
+    def request_line_blanks(rng, sp, ver, cfg):
+        sp["line"] = sp["line"].replace(" ", rng.choice(["  ", "\t", "   "]), rng.choice([1, 2]))
+
+    def obs_fold(rng, sp, ver, cfg):
+        sp["h"].insert(rng.randrange(1, len(sp["h"]) + 1), [rng.choice(["\tfolded-part", " continued"]), "x", "", ""])
+
+    def http_above(rng, sp, ver, cfg):
+        sp["line"] = sp["line"].replace("HTTP/1.1", rng.choice(["HTTP/1.2", "HTTP/2.0", "HTTP/1.9", "HTTP/9.9"]))
+
+    def absolute_target(rng, sp, ver, cfg):
+        t = sp["line"].split(" ")[1]
+        sp["line"] = "GET %s%s HTTP/1.1" % (rng.choice(["http://server.example.com", "ws://127.0.0.1:9000", "https://x", "*", "a/b"]), t)
+
+    def fragment(rng, sp, ver, cfg):
+        t = sp["line"].split(" ")[1]
+        sp["line"] = "GET %s#frag HTTP/1.1" % t
+
+    def key_noncanonical(rng, sp, ver, cfg):
+        k = hget(sp, "Sec-WebSocket-Key") or rand_key(rng)
+        hset(sp, "Sec-WebSocket-Key", k[:21] + rng.choice("BCDEFGHIJKLMNOPRSTUVWXYZabcdefhijklmnopqrstuvxyz0123456789+/") + "==")
+
+    def version_duplicate(rng, sp, ver, cfg):
+        hdup(sp, "Sec-WebSocket-Version", rng.choice([None, "7", "13", "8"]))
+
+    def origin_duplicate(rng, sp, ver, cfg):
+        hdel(sp, "Origin")
+        hdel(sp, "Sec-WebSocket-Origin")
+        n = "Origin" if ver >= 13 else "Sec-WebSocket-Origin"
+        sp["h"].append([n, "http://good.com", " ", ""])
+        sp["h"].append([n, rng.choice(["http://good.com", "http://evil.com"]), " ", ""])
+
+    def origin_malformed(rng, sp, ver, cfg):
+        hdel(sp, "Origin")
+        hdel(sp, "Sec-WebSocket-Origin")
+        sc = rng.choice(ORIGIN_SCENARIOS)
+        cfg["scenario"], cfg["origins"] = sc["name"], list(sc["allowed"])
+        o = rng.choice(["http://", "foo", "http://Good.com", "http://good.com/", "http://good.com:80/", "file:///x", "http://[::1]:80",
+                        "http://good.com:99999", "http://user@good.com", "http://good.com:port", "://good.com", "http:good.com", "",
+                        "chrome-extension://abc", "http://good.com:", "HTTP://GOOD.COM", "http://[::1", "http://good.com:-1", "NULL",
+                        "http://good.com http://evil.com", "http://good.com:080", "http://-good.com"])
+        sp["h"].append(["Origin" if ver >= 13 else "Sec-WebSocket-Origin", o, " ", ""])
+
+    def host_port_mismatch(rng, sp, ver, cfg):
+        cfg["xport"] = rng.choice([9000, 443, 8080])
+        hset(sp, "Host", "server.example.com:%d" % (cfg["xport"] + rng.choice([1, -1, 1000])))
+
+    def host_syntax(rng, sp, ver, cfg):
+        hset(sp, "Host", rng.choice(["", "a:b", "server:99999", "server:", ":80", "a b", "[::1", "::1", "host:80:80", "host:-1", "host:+80",
+                                     "host: 80", "host:8_0", "[::1]:x", "under_score.example"]))
+
+    def big_block(rng, sp, ver, cfg):
+        for i in range(rng.randint(150, 400)):
+            sp["h"].insert(rng.randrange(len(sp["h"]) + 1), ["X-Pad-%d" % i, "p" * rng.randint(0, 80), " ", ""])
+
+    def pmce_params(rng, sp, ver, cfg):
+        hdel(sp, "Sec-WebSocket-Extensions")
+        cfg["pmce"] = True
+        sp["h"].append(["Sec-WebSocket-Extensions", rng.choice([
+            "permessage-deflate; client_max_window_bits=7", "permessage-deflate; server_max_window_bits=8", "permessage-deflate; foo",
+            "permessage-deflate; client_max_window_bits=x", "permessage-deflate; server_no_context_takeover=1",
+            "permessage-deflate; client_max_window_bits; client_max_window_bits", "permessage-deflate; server_max_window_bits=16",
+            "permessage-deflate; server_max_window_bits", "permessage-bzip2", "permessage-brotli", "permessage-snappy",
+            "permessage-deflate; server_max_window_bits=\"10\"", "permessage-deflate;;", ",,", "; x", "permessage-deflate; =",
+            "permessage-deflate; client_max_window_bits=010", "permessage-bzip2; client_max_compress_level=9",
+            "permessage-deflate; server_max_window_bits=10, permessage-deflate"]), " ", ""])
+
+    def extensions_split(rng, sp, ver, cfg):
+        hdel(sp, "Sec-WebSocket-Extensions")
+        sp["h"].append(["Sec-WebSocket-Extensions", "permessage-deflate", " ", ""])
+        sp["h"].insert(0, ["Sec-WebSocket-Extensions", "x-foo", " ", ""])
+
+    def nbsp_around_value(rng, sp, ver, cfg):
+        n = rng.choice(["Upgrade", "Connection", "Sec-WebSocket-Key", "Sec-WebSocket-Version", "Host"])
+        hset(sp, n, (hget(sp, n) or "") + rng.choice(["\xa0", "\x85", "\xa0\xa0"]))
+
+    def body_indication(rng, sp, ver, cfg):
+        sp["h"].append(rng.choice([["Content-Length", rng.choice(["0", "5", "-1", "x"]), " ", ""], ["Transfer-Encoding", "chunked", " ", ""]]))
+
+    def protocol_odd(rng, sp, ver, cfg):
+        hdel(sp, "Sec-WebSocket-Protocol")
+        sp["h"].append(["Sec-WebSocket-Protocol", rng.choice(["chat,,superchat", ",", "", "chat, ", "a b, c", "\"chat\"", "chat;q=1", "a/b",
+                                                              "chat,, ,", "(x)"]), " ", ""])
+
+    def ctl_in_value(rng, sp, ver, cfg):
+        i = rng.randrange(len(sp["h"]))
+        sp["h"][i][1] = sp["h"][i][1] + rng.choice(["\x00", "\x01", "\x7f", "\x0b", "\x0c", "\x1c", "\x1d", "\x1e", "\x1f", "\x08"])
+
+    def smuggle_ctl(rng, sp, ver, cfg):
+        # like smuggle-nel but behind a separator that is a control character (or a bare CR / LF): structure ambiguous -> grey
+        name = rng.choice(["Upgrade", "Connection", "Sec-WebSocket-Key", "Sec-WebSocket-Version", "Host"])
+        sep = rng.choice(["\x0b", "\x0c", "\x1c", "\x1d", "\x1e", "\n", "\r"])
+        for i, e in enumerate(sp["h"]):
+            if e[0].lower() == name.lower():
+                sp["h"][i] = ["X-Note", "a%s%s: %s" % (sep, e[0], e[1]), " ", ""]
+
+    def name_space(rng, sp, ver, cfg):
+        i = rng.randrange(len(sp["h"]))
+        sp["h"][i][0] = sp["h"][i][0] + rng.choice([" ", "\t"])
+
+    def target_chars(rng, sp, ver, cfg):
+        sp["line"] = "GET %s HTTP/1.1" % rng.choice(["/%zz", "/a\"b", "/<x>", "/a\\b", "/%", "/a|b", "/{x}", "/^", "/`", "/%f", "/\xe9", "/[x]"])
+
+    return {"version-lenient": version_lenient, "request-line-blanks": request_line_blanks, "obs-fold": obs_fold, "http-above-1.1": http_above,
+            "absolute-target": absolute_target, "fragment": fragment, "key-noncanonical": key_noncanonical,
+            "version-duplicate": version_duplicate, "origin-duplicate": origin_duplicate, "origin-malformed": origin_malformed,
+            "host-port-mismatch": host_port_mismatch, "host-syntax": host_syntax, "big-block": big_block, "pmce-params": pmce_params,
+            "extensions-split": extensions_split, "nbsp-around-value": nbsp_around_value, "body-indication": body_indication,
+            "protocol-odd": protocol_odd, "ctl-in-value": ctl_in_value, "smuggle-ctl": smuggle_ctl, "name-space": name_space,
+            "target-chars": target_chars}
+
+
+def _clean_spec(sp):
+    sp.pop("_sub", None)
+    return sp
+
+
+def gen_server_case(rng, klass, force=None):
+    """klass in accept | reject | grey; force = name of the mutation to apply"""
+    cfg = gen_server_cfg(rng)
+    if klass == "accept" and cfg["maxc"] and conn_index(cfg) > cfg["maxc"]:
+        # keep the limit configured but stay below / exactly AT it (the boundary the limit allows)
+        cfg["closed"] = 0
+        cfg["prior"] = rng.choice([cfg["maxc"] - 1, cfg["maxc"] - 1, rng.randint(0, cfg["maxc"] - 1)])
+    if klass != "accept" and cfg["maxc"] and conn_index(cfg) > cfg["maxc"]:
+        cfg["maxc"], cfg["prior"], cfg["closed"] = 0, 0, 0
+    sp, ver = accept_request_spec(rng, cfg)
+    tag = "accept"
+    if klass == "reject":
+        muts = server_reject_mutations(cfg)
+        name = force or rng.choice(sorted(muts))
+        muts[name](rng, sp, ver, cfg)
+        tag = "reject/" + name + ("/" + sp["_sub"] if sp.get("_sub") else "")
+    elif klass == "grey":
+        muts = server_grey_mutations()
+        name = force or rng.choice(sorted(muts))
+        muts[name](rng, sp, ver, cfg)
+        tag = "grey/" + name
+    _clean_spec(sp)
+    data = build_msg(sp)
+    if klass == "grey" and rng.random() < 0.08:
+        data = data.replace(b"\r\n", rng.choice([b"\n", b"\r"]))
+        tag = "grey/bare-line-ends"
+    if klass == "accept" and rng.random() < 0.2:
+        data += trailing_client_frame(rng)
+        tag = "accept/trailing-frame"
+    return finish_case(rng, {"kind": "server", "tag": tag, "cfg": cfg}, data)
+
+
+# --- hostile: arbitrary / mutated / truncated / oversized / non-ASCII octets, web-status side paths -------------------------
+
+INTERESTING = [0x00, 0x0D, 0x0A, 0x85, 0xFF, 0xA0, 0x3A, 0x20, 0x2C, 0x3B, 0x3D, 0x09, 0x80, 0xC3, 0xE2, 0x7F, 0x0B, 0x0C, 0x1C, 0x25,
+               0x2F, 0x3F, 0x23, 0x5B, 0x5D, 0x22, 0x2A, 0x2B, 0x2D, 0x30, 0x31, 0x5F]
+
+
+def mutate_bytes(rng, data, n):
+    b = bytearray(data)
+    for _ in range(n):
+        op = rng.randrange(6)
+        L = len(b)
+        if L == 0:
+            b += bytes([rng.choice(INTERESTING)])
+            continue
+        pos = rng.randrange(L)
+        if op == 0:
+            b[pos] ^= 1 << rng.randrange(8)
+        elif op == 1:
+            b[pos:pos] = bytes([rng.choice(INTERESTING)])
+        elif op == 2:
+            del b[pos]
+        elif op == 3:
+            b[pos] = rng.choice(INTERESTING)
+        elif op == 4:
+            j = min(L, pos + rng.randint(1, 40))
+            b[pos:pos] = b[pos:j]
+        else:
+            b[pos] = rng.getrandbits(8)
+    return bytes(b)
+
+
+REDIRECTS = ["http%3A%2F%2Fexample.com", "http://example.com/", "https%3A%2F%2Fa.b%2Fc%3Fd%3De", "//evil", "javascript:alert(1)",
+             "http%3A%2F%2F[::1", "http%3A%2F%2Fexa%20mple.com", "http://host:99999999", "http://host:port", "%00", "%ff%fe",
+             "http://%E2%98%83.net", "http://xn--", "http://a..b", "http://" + "a" * 300 + ".com", "", "http://user:pw@host",
+             "'%22><script>", "http://[1.2.3.4]", "ht!tp://x", "%5C%5Cx", "http://host/%zz", "http://[::1]:80/", "http://h/%0d%0aX:%20y",
+             "http://-x-.com", "http://\xe9.com", "http://h:0x50", "http://[v1.x]", "http://h%00", "http://%", "%", "http://a%20b/",
+             "http://[fe80::1%25eth0]/", "x" * 2000, "http://host#frag", "http://host:65536", "http://host:-1", "http://h\t"]
+AFTERS = [None, None, "0", "3", "abc", "-1", "1.5", "", "1e3", "%202", "0x10", "9" * 400, "%00", "%D9%A3", "3&after=x", "+4", "1_0", "%ff", "''"]
+
+
+def status_request(rng, cfg):
+    """A plain HTTP request WITHOUT Upgrade header: the server's status page / redirect side path."""
+    cfg["webstatus"] = rng.random() < 0.9
+    q = []
+    if rng.random() < 0.85:
+        q.append("redirect=" + rng.choice(REDIRECTS))
+    a = rng.choice(AFTERS)
+    if a is not None:
+        q.append("after=" + a)
+    if rng.random() < 0.2:
+        q.append(rng.choice(["x=1", "redirect=", "after", "&&", "=", "redirect", "a=%zz", "redirect=a&redirect=b"]))
+    rng.shuffle(q)
+    target = rng.choice(["/", "/status", ""]) + ("?" + "&".join(q) if q else "")
+    hs = [["Host", rng.choice(HOSTS)]] + [list(x) for x in rng.sample(EXTRA_HEADERS, rng.randint(0, 3))]
+    if rng.random() < 0.2:
+        hs.append(["Connection", "keep-alive"])
+    sp = {"line": "GET %s HTTP/1.1" % (target or "/"), "h": [[n, v, " ", ""] for n, v in hs]}
+    return build_msg(sp)
+
+
+def random_octets(rng, role):
+    mode = rng.randrange(6)
+    if mode == 0:
+        d = bytes(rng.getrandbits(8) for _ in range(rng.randint(0, 600)))
+    elif mode == 1:
+        d = bytes(rng.getrandbits(8) for _ in range(rng.randint(0, 300))) + b"\r\n\r\n" + bytes(rng.getrandbits(8) for _ in range(rng.randint(0, 20)))
+    elif mode == 2:
+        lines = []
+        for _ in range(rng.randint(1, 12)):
+            lines.append(bytes(rng.choice(b"abcXYZ019:;,= /-_\t\"%.") for _ in range(rng.randint(0, 40))))
+        d = b"\r\n".join(lines) + rng.choice([b"\r\n\r\n", b"\r\n", b"", b"\n\n"])
+    elif mode == 3:
+        d = rng.choice([b"\r\n\r\n", b"\r\n" * rng.randint(1, 50), b"\x00" * rng.randint(1, 100), b"\n\n", b"\r\r\n\n", b":\r\n\r\n", b" \r\n\r\n",
+                        b"\r\n\r\n\r\n\r\n", b"\x16\x03\x01\x02\x00\x01\x00\x01\xfc\x03\x03" + bytes(40) + b"\r\n\r\n", b"\xff\xfe\r\n\r\n",
+                        b"PRI * HTTP/2.0\r\n\r\nSM\r\n\r\n", b"\x85\x85\r\n\r\n", b"GET\r\n\r\n", b"HTTP/1.1\r\n\r\n", b"HTTP/1.1 101\r\n\r\n",
+                        b"GET / HTTP/1.1\r\n\r\n", b"\xef\xbb\xbfGET / HTTP/1.1\r\nHost: x\r\n\r\n", b"<policy-file-request/>\x00"])
+    elif mode == 4:
+        first = (b"GET / HTTP/1.1" if role == "server" else b"HTTP/1.1 101 Switching Protocols")
+        lines = [first]
+        for _ in range(rng.randint(0, 10)):
+            name = rng.choice([b"Host", b"Upgrade", b"Connection", b"Sec-WebSocket-Key", b"Sec-WebSocket-Version", b"Sec-WebSocket-Accept",
+                               b"Sec-WebSocket-Protocol", b"Sec-WebSocket-Extensions", b"Origin", b"X", b"", b"X-Forwarded-For"])
+            val = bytes(rng.choice([rng.getrandbits(8), rng.choice(b"websocketUpgrade13, ;=")]) for _ in range(rng.randint(0, 30)))
+            lines.append(name + b": " + val.replace(b"\r", b"").replace(b"\n", b""))
+        d = b"\r\n".join(lines) + b"\r\n\r\n"
+    else:
+        d = "".join(chr(rng.choice([rng.randrange(0x20, 0x7F), rng.randrange(0xA0, 0x3000)])) for _ in range(rng.randint(1, 200))).encode("utf-8")
+        d += rng.choice([b"", b"\r\n\r\n"])
+    return d
+
+
+def oversized_recipe(rng, role, valid_head, tier):
+    """Header blocks far beyond any sane size, with or without terminator."""
+    big = (1 << 20) if (tier == "thorough" or rng.random() < 0.1) else (1 << 16)
+    k = valid_head.find(b"\r\n") + 2
+    mode = rng.randrange(4)
+    if mode == 0:      # many padding fields inside an otherwise valid handshake
+        unit = b"X-Pad: " + b"p" * 57 + b"\r\n"
+        return {"pre": valid_head[:k].hex(), "unit": unit.hex(), "n": big // len(unit), "post": valid_head[k:].hex()}, "oversized/many-fields"
+    if mode == 1:      # one gigantic field value
+        return {"pre": (valid_head[:k] + b"X-Big: ").hex(), "unit": b"v".hex(), "n": big, "post": (b"\r\n" + valid_head[k:]).hex()}, "oversized/one-field"
+    if mode == 2:      # never terminated
+        unit = rng.choice([b"X-Pad: " + b"p" * 57 + b"\r\n", b"a", b"\xe9", b"\x00", b"\r\n \r\n\t", b":"])
+        return {"pre": valid_head[:k].hex(), "unit": unit.hex(), "n": big // len(unit), "post": ""}, "oversized/unterminated"
+    unit = b"/" + b"a" * 63                 # gigantic request target / reason phrase
+    if role == "server":
+        return {"pre": b"GET ".hex(), "unit": unit.hex(), "n": big // 64, "post": (b" HTTP/1.1\r\n" + valid_head[k:]).hex()}, "oversized/start-line"
+    return {"pre": b"HTTP/1.1 101 ".hex(), "unit": unit.hex(), "n": big // 64, "post": (b"\r\n" + valid_head[k:]).hex()}, "oversized/start-line"
+
+
+def gen_server_hostile(rng, tier):
+    mode = _w(rng, [(30, "mutate"), (10, "truncate"), (14, "random"), (20, "status"), (4, "oversized"), (8, "nonascii"), (4, "flash"), (10, "status-mutate")])
+    if mode in ("mutate", "truncate", "nonascii", "oversized"):
+        base = gen_server_case(rng, rng.choice(["accept", "accept", "reject", "grey"]))
+        cfg, data = base["cfg"], bytes.fromhex(base["data"])
+        if mode == "mutate":
+            data = mutate_bytes(rng, data, rng.choice([1, 1, 1, 2, 3, 6]))
+        elif mode == "truncate":
+            data = data[:rng.randrange(len(data))]
+        elif mode == "nonascii":
+            k = data.find(b"\r\n\r\n")
+            pos = sorted(rng.sample(range(max(1, k)), min(max(1, k), rng.randint(1, 8))))
+            b = bytearray(data)
+            for p_ in pos:
+                if b[p_] not in (0x0D, 0x0A, 0x3A):
+                    b[p_] = rng.randrange(0x80, 0x100)
+            data = bytes(b)
+        else:
+            rec, tag = oversized_recipe(rng, "server", data[:data.find(b"\r\n\r\n") + 4], tier)
+            return finish_case(rng, {"kind": "server", "tag": "hostile/" + tag, "cfg": cfg, "recipe": rec})
+        return finish_case(rng, {"kind": "server", "tag": "hostile/" + mode, "cfg": cfg}, data)
+    cfg = gen_server_cfg(rng)
+    if mode == "random":
+        data = random_octets(rng, "server")
+    elif mode == "flash":
+        cfg["flash"] = rng.random() < 0.8
+        data = rng.choice([b"<policy-file-request/>\x00", b"<policy-file-request/>", b"x<policy-file-request/>\x00y", b"<policy-file-request/>\x00\r\n\r\n"])
+    else:
+        data = status_request(rng, cfg)
+        if mode == "status-mutate":
+            data = mutate_bytes(rng, data, rng.choice([1, 1, 2, 4]))
+    return finish_case(rng, {"kind": "server", "tag": "hostile/" + mode, "cfg": cfg}, data)
+
+
+# ------------------------------------------------------------------------------------------------
+# client side: configurations (URL built from components) and responses
+# ------------------------------------------------------------------------------------------------
+URL_HOSTS = ["example.com", "127.0.0.1", "localhost", "a-b.example.org", "EXAMPLE.Com", "::1", "2001:db8::1", "xn--bcher-kva.example", "h"]
+URL_PORTS = [None, None, None, 80, 443, 9000, 8080, 65535, 1]
+URL_PATHS = ["", "/", "/", "/chat", "/a/b/c", "/%7Euser", "/a%20b", "/ws;v=1", "/a;b/c", "/x;y=1;z", "/a.b-c_d~e", "//double", "/trailing/",
+             "/;", "/p;a=1/q;b=2"]
+URL_QUERIES = [None, None, None, "x=1", "x=1&y=2", "a=%20b", "redirect=http%3A%2F%2Fe.com", "q=a;b", "k", "a=b=c", "a=1&a=2", "x=/?"]
+RESP_EXTRA = [("Server", "vf/1.0"), ("Date", "Tue, 23 Sep 2026 10:00:00 GMT"), ("Set-Cookie", "sid=abc; Path=/; HttpOnly"), ("X-Powered-By", "vf"),
+              ("Access-Control-Allow-Origin", "*"), ("X-Empty", ""), ("Sec-WebSocket-Foo", "bar"), ("Via", "1.1 proxy"), ("X-Colon", "a:b")]
+REASONS = ["Switching Protocols", "Switching Protocols", "Web Socket Protocol Handshake", "OK", "switching", "", "Switching  Protocols", "101"]
+
+
+def gen_client_cfg(rng):
+    return {"host": rng.choice(URL_HOSTS), "port": rng.choice(URL_PORTS), "path": rng.choice(URL_PATHS), "query": rng.choice(URL_QUERIES),
+            "secure": rng.random() < 0.2, "protos": rng.sample(PROTO_POOL, rng.choice([0, 0, 1, 2, 3])), "offer": rng.random() < 0.5,
+            "offer_bits": rng.random() < 0.5, "approve": rng.random() < 0.6, "spec": rng.choice([18, 18, 18, 13, 10, 12, 17]),
+            "ua": rng.choice([None, "vf-agent/1.0", ""]), "origin": rng.choice([None, None, "http://example.com"]),
+            "headers": rng.choice([{}, {}, {"X-Custom": "1"}, {"Cookie": "a=b", "X-Two": "2"}]), "oht": rng.choice([1, 2, 5])}
+
+
+def build_url(cfg):
+    """The URL is assembled HERE from its components (not by the library's create_url)."""
+    host = "[%s]" % cfg["host"] if ":" in cfg["host"] else cfg["host"]
+    return "%s://%s%s%s%s" % ("wss" if cfg["secure"] else "ws", host, ":%d" % cfg["port"] if cfg["port"] is not None else "",
+                              cfg["path"], "?" + cfg["query"] if cfg["query"] is not None else "")
+
+
+def key_of(nonce):
+    return base64.b64encode(nonce).decode("ascii")
+
+
+def oracle_client_cfg(cfg, nonce):
+    return H.ClientCfg(key=key_of(nonce), protocols=cfg["protos"], offered=["permessage-deflate"] if cfg["offer"] else [],
+                       offered_client_bits=bool(cfg["offer"] and cfg["offer_bits"]), approves=cfg["approve"])
+
+
+def accept_response_spec(rng, cfg, nonce):
+    hs = [["Upgrade", rng.choice(["websocket", "websocket", "WebSocket", "WEBSOCKET", "WebsockeT"])],
+          ["Connection", rng.choice(["Upgrade", "Upgrade", "upgrade", "UPGRADE", "keep-alive, Upgrade", "Upgrade,foo"])],
+          ["Sec-WebSocket-Accept", H.accept_digest(key_of(nonce))]]
+    if cfg["protos"] and rng.random() < 0.7:
+        hs.append(["Sec-WebSocket-Protocol", rng.choice(cfg["protos"])])
+    if cfg["offer"] and cfg["approve"] and rng.random() < 0.7:
+        params = []
+        if rng.random() < 0.4:
+            params.append("server_no_context_takeover")
+        if rng.random() < 0.4:
+            params.append("client_no_context_takeover")
+        if rng.random() < 0.4:
+            params.append("server_max_window_bits=%d" % rng.randint(9, 15))
+        if cfg["offer_bits"] and rng.random() < 0.4:
+            params.append("client_max_window_bits=%d" % rng.randint(9, 15))
+        rng.shuffle(params)
+        hs.append(["Sec-WebSocket-Extensions", rng.choice(["permessage-deflate", "Permessage-Deflate", "permessage-deflate"]) +
+                   "".join(rng.choice(["; ", ";", " ; "]) + p_ for p_ in params)])
+    for n, v in rng.sample(RESP_EXTRA, rng.randint(0, 4)):
+        hs.append([n, v])
+    if rng.random() < 0.7:
+        rng.shuffle(hs)
+    return {"line": "HTTP/1.1 101 " + rng.choice(REASONS),
+            "h": [[rand_case(rng, n) if rng.random() < 0.5 else n, v, rng.choice(OWS_PRE), rng.choice(OWS_POST)] for n, v in hs]}
+
+
+def client_reject_mutations():
+    def status(rng, sp, cfg, nonce):
+        sp["line"] = "HTTP/1.1 %s" % rng.choice(["200 OK", "400 Bad Request", "404 Not Found", "301 Moved", "500 Oops", "100 Continue", "102 Processing",
+                                                 "201 Created", "426 Upgrade Required", "503 Busy", "110 x", "011 x", "001 x", "999 x", "401 Unauthorized",
+                                                 "302 Found", "407 Proxy Authentication Required", "000 x"])
+
+    def upgrade_missing(rng, sp, cfg, nonce):
+        hdel(sp, "Upgrade")
+
+    def upgrade_wrong(rng, sp, cfg, nonce):
+        hset(sp, "Upgrade", rng.choice(["websockets", "h2c", "", "web-socket", "websocke", "TLS/1.0, HTTP/1.1", "xwebsocket", "ws"]))
+
+    def connection_missing(rng, sp, cfg, nonce):
+        hdel(sp, "Connection")
+
+    def connection_wrong(rng, sp, cfg, nonce):
+        hset(sp, "Connection", rng.choice(["keep-alive", "close", "", "upgraded", "Upgrad", "keep-alive, close"]))
+
+    def accept_missing(rng, sp, cfg, nonce):
+        hdel(sp, "Sec-WebSocket-Accept")
+
+    def accept_duplicate(rng, sp, cfg, nonce):
+        hdup(sp, "Sec-WebSocket-Accept", rng.choice([None, "AAAAAAAAAAAAAAAAAAAAAAAAAAA="]))
+
+    def accept_wrong(rng, sp, cfg, nonce):
+        good = H.accept_digest(key_of(nonce))
+        raw = hashlib.sha1((key_of(nonce) + H.GUID).encode()).digest()
+        other = H.accept_digest(key_of(bytes((nonce[0] ^ 1,)) + nonce[1:]))
+        flip = lambda c: "B" if c == "A" else "A"     # noqa: E731
+        variants = {"truncated-27": good[:27], "truncated-20": good[:20], "tail-changed": good[:26] + flip(good[26]) + "=",
+                    "mid-changed": good[:13] + flip(good[13]) + good[14:], "head-changed": flip(good[0]) + good[1:],
+                    "char-21-changed": good[:21] + flip(good[21]) + good[22:], "extra-char": good + "A", "extra-pad": good + "=",
+                    "other-key": other, "lowercase": good.lower() if good.lower() != good else good.upper(), "hex": raw.hex(),
+                    "empty": "", "no-guid": base64.b64encode(hashlib.sha1(key_of(nonce).encode()).digest()).decode(),
+                    "sha1-of-nonce": base64.b64encode(hashlib.sha1(nonce + H.GUID.encode()).digest()).decode(),
+                    "the-key-itself": key_of(nonce), "urlsafe": good.replace("+", "-").replace("/", "_") if ("+" in good or "/" in good) else good[::-1],
+                    "twice": good + good, "quoted": '"' + good + '"', "prefix-ok": good[:20] + "AAAAAAA="}
+        name = rng.choice(sorted(variants))
+        hset(sp, "Sec-WebSocket-Accept", variants[name])
+        sp["_sub"] = name
+
+    def extension_unknown(rng, sp, cfg, nonce):
+        hdel(sp, "Sec-WebSocket-Extensions")
+        sp["h"].append(["Sec-WebSocket-Extensions", rng.choice(["x-webkit-deflate-frame", "foo", "deflate-frame", "permessage-foo; x=1", "mux",
+                                                                "permessage-deflate2", "xpermessage-deflate"]), " ", ""])
+
+    def extension_not_offered(rng, sp, cfg, nonce):
+        cfg["offer"], cfg["approve"] = False, False
+        hdel(sp, "Sec-WebSocket-Extensions")
+        sp["h"].append(["Sec-WebSocket-Extensions", rng.choice(["permessage-deflate", "permessage-deflate; server_no_context_takeover",
+                                                                "permessage-bzip2", "permessage-brotli"]), " ", ""])
+
+    def extension_declined(rng, sp, cfg, nonce):
+        cfg["offer"], cfg["approve"] = True, False
+        hdel(sp, "Sec-WebSocket-Extensions")
+        sp["h"].append(["Sec-WebSocket-Extensions", rng.choice(["permessage-deflate", "permessage-deflate; client_no_context_takeover"]), " ", ""])
+
+    def protocol_not_requested(rng, sp, cfg, nonce):
+        hdel(sp, "Sec-WebSocket-Protocol")
+        if rng.random() < 0.4:
+            cfg["protos"] = []
+        cands = [p_ for p_ in PROTO_POOL + ["other", "x", "chat2", "cha"] if p_.lower() not in [q.lower() for q in cfg["protos"]]]
+        sp["h"].append(["Sec-WebSocket-Protocol", rng.choice(cands), " ", ""])
+
+    def smuggle_nel(rng, sp, cfg, nonce):
+        name = rng.choice(["Upgrade", "Connection", "Sec-WebSocket-Accept"])
+        for i, e in enumerate(sp["h"]):
+            if e[0].lower() == name.lower():
+                sp["h"][i] = ["X-Note", "a\x85%s: %s" % (e[0], e[1]), " ", ""]
+        sp["_sub"] = name.lower()
+
+    return {"status-not-101": status, "upgrade-missing": upgrade_missing, "upgrade-wrong": upgrade_wrong, "connection-missing": connection_missing,
+            "connection-wrong": connection_wrong, "accept-missing": accept_missing, "accept-duplicate": accept_duplicate,
+            "accept-wrong": accept_wrong, "extension-unknown": extension_unknown, "extension-not-offered": extension_not_offered,
+            "extension-declined": extension_declined, "protocol-not-requested": protocol_not_requested, "smuggle-nel": smuggle_nel}
+
+
+def client_grey_mutations():
+    def http_version(rng, sp, cfg, nonce):
+        sp["line"] = sp["line"].replace("HTTP/1.1", rng.choice(["HTTP/1.0", "HTTP/1.2", "HTTP/2.0", "HTTP/0.9"]))
+
+    def no_reason(rng, sp, cfg, nonce):
+        sp["line"] = "HTTP/1.1 101"
+
+    def status_blanks(rng, sp, cfg, nonce):
+        sp["line"] = rng.choice(["HTTP/1.1  101 Switching Protocols", "HTTP/1.1\t101 Switching Protocols", "HTTP/1.1 101\tx", " HTTP/1.1 101 x",
+                                 "HTTP/1.1 1_01 x", "HTTP/1.1 +101 x", "HTTP/1.1 0101 x", "HTTP/1.1 101.0 x", "http/1.1 101 x", "HTTP/1.1 101x"])
+
+    def upgrade_list(rng, sp, cfg, nonce):
+        if rng.random() < 0.5:
+            hset(sp, "Upgrade", rng.choice(["websocket, foo", "foo, websocket", "websocket/13", "websocket,websocket"]))
+        else:
+            hdup(sp, "Upgrade")
+
+    def protocol_case(rng, sp, cfg, nonce):
+        cfg["protos"] = cfg["protos"] or ["chat"]
+        hdel(sp, "Sec-WebSocket-Protocol")
+        sp["h"].append(["Sec-WebSocket-Protocol", rng.choice(cfg["protos"]).upper(), " ", ""])
+
+    def protocol_odd(rng, sp, cfg, nonce):
+        cfg["protos"] = cfg["protos"] or ["chat", "superchat"]
+        hdel(sp, "Sec-WebSocket-Protocol")
+        p_ = cfg["protos"][0]
+        sp["h"].append(["Sec-WebSocket-Protocol", rng.choice(["", p_ + ", other", p_ + "," + p_, '"%s"' % p_, p_ + ";q=1", ","]), " ", ""])
+        if rng.random() < 0.3:
+            sp["h"].append(["Sec-WebSocket-Protocol", p_, " ", ""])
+
+    def extension_odd(rng, sp, cfg, nonce):
+        cfg["offer"], cfg["approve"] = True, True
+        hdel(sp, "Sec-WebSocket-Extensions")
+        sp["h"].append(["Sec-WebSocket-Extensions", rng.choice([
+            "permessage-deflate, permessage-deflate", "permessage-deflate; server_max_window_bits=8", "permessage-deflate; client_max_window_bits",
+            "permessage-deflate; server_max_window_bits=16", "permessage-deflate; foo=1", "permessage-deflate; server_no_context_takeover=x",
+            "permessage-deflate; server_max_window_bits=10; server_max_window_bits=11", "permessage-deflate;", ",", "", "permessage-bzip2",
+            "permessage-deflate; server_max_window_bits=\"12\"", "permessage-deflate; client_max_window_bits=010", "permessage-brotli"]), " ", ""])
+        if rng.random() < 0.2:
+            sp["h"].append(["Sec-WebSocket-Extensions", "permessage-deflate", " ", ""])
+
+    def extension_approved_not_offered(rng, sp, cfg, nonce):
+        cfg["offer"], cfg["approve"] = False, True
+        hdel(sp, "Sec-WebSocket-Extensions")
+        sp["h"].append(["Sec-WebSocket-Extensions", "permessage-deflate", " ", ""])
+
+    def body_indication(rng, sp, cfg, nonce):
+        sp["h"].append(rng.choice([["Content-Length", rng.choice(["0", "5", "x"]), " ", ""], ["Transfer-Encoding", "chunked", " ", ""]]))
+
+    def obs_fold(rng, sp, cfg, nonce):
+        sp["h"].insert(rng.randrange(1, len(sp["h"]) + 1), [rng.choice(["\tfolded-part", " continued"]), "x", "", ""])
+
+    def ctl_in_value(rng, sp, cfg, nonce):
+        i = rng.randrange(len(sp["h"]))
+        sp["h"][i][1] = sp["h"][i][1] + rng.choice(["\x00", "\x01", "\x7f", "\x0b", "\x0c", "\x1c", "\x1d", "\x1e", "\x1f"])
+
+    def smuggle_ctl(rng, sp, cfg, nonce):
+        name = rng.choice(["Upgrade", "Connection", "Sec-WebSocket-Accept"])
+        sep = rng.choice(["\x0b", "\x0c", "\x1c", "\x1d", "\x1e", "\n", "\r"])
+        for i, e in enumerate(sp["h"]):
+            if e[0].lower() == name.lower():
+                sp["h"][i] = ["X-Note", "a%s%s: %s" % (sep, e[0], e[1]), " ", ""]
+
+    def name_space(rng, sp, cfg, nonce):
+        i = rng.randrange(len(sp["h"]))
+        sp["h"][i][0] = sp["h"][i][0] + rng.choice([" ", "\t"])
+
+    return {"http-version": http_version, "no-reason": no_reason, "status-blanks": status_blanks, "upgrade-list": upgrade_list,
+            "protocol-case": protocol_case, "protocol-odd": protocol_odd, "extension-odd": extension_odd,
+            "extension-approved-not-offered": extension_approved_not_offered, "body-indication": body_indication, "obs-fold": obs_fold,
+            "ctl-in-value": ctl_in_value, "smuggle-ctl": smuggle_ctl, "name-space": name_space}
+
+
+def trailing_server_frame(rng):
+    return ref.encode_frame(ref.OP_TEXT, b"vf-trailing-%d" % rng.randrange(1000))
+
+
+def gen_client_case(rng, klass, force=None):
+    """klass in accept | reject | grey | url; force = name of the mutation to apply"""
+    cfg = gen_client_cfg(rng)
+    nonce = bytes(rng.getrandbits(8) for _ in range(16))
+    case = {"kind": "client", "cfg": cfg, "nonce": nonce.hex()}
+    if klass == "url":
+        case["tag"] = "url"
+        return finish_case(rng, case, b"")
+    sp = accept_response_spec(rng, cfg, nonce)
+    tag = "accept"
+    if klass == "reject":
+        muts = client_reject_mutations()
+        name = force or rng.choice(sorted(muts))
+        muts[name](rng, sp, cfg, nonce)
+        tag = "reject/" + name + ("/" + sp["_sub"] if sp.get("_sub") else "")
+    elif klass == "grey":
+        muts = client_grey_mutations()
+        name = force or rng.choice(sorted(muts))
+        muts[name](rng, sp, cfg, nonce)
+        tag = "grey/" + name
+    _clean_spec(sp)
+    data = build_msg(sp)
+    if klass == "grey" and rng.random() < 0.08:
+        data = data.replace(b"\r\n", rng.choice([b"\n", b"\r"]))
+        tag = "grey/bare-line-ends"
+    if klass == "accept" and rng.random() < 0.2:
+        data += trailing_server_frame(rng)
+        tag = "accept/trailing-frame"
+    case["tag"] = tag
+    return finish_case(rng, case, data)
+
+
+def gen_client_hostile(rng, tier):
+    mode = _w(rng, [(35, "mutate"), (10, "truncate"), (15, "random"), (5, "oversized"), (20, "nonascii"), (15, "non-utf8-field")])
+    if mode == "random":
+        case = gen_client_case(rng, "url")
+        case["tag"] = "hostile/random"
+        return finish_case(rng, case, random_octets(rng, "client"))
+    base = gen_client_case(rng, rng.choice(["accept", "accept", "reject", "grey"]))
+    data = bytes.fromhex(base["data"])
+    if mode == "mutate":
+        data = mutate_bytes(rng, data, rng.choice([1, 1, 1, 2, 3, 6]))
+    elif mode == "truncate":
+        data = data[:rng.randrange(len(data))]
+    elif mode == "nonascii":
+        k = data.find(b"\r\n\r\n")
+        b = bytearray(data)
+        for p_ in rng.sample(range(max(1, k)), min(max(1, k), rng.randint(1, 8))):
+            if b[p_] not in (0x0D, 0x0A, 0x3A):
+                b[p_] = rng.randrange(0x80, 0x100)
+        data = bytes(b)
+    elif mode == "non-utf8-field":
+        # an otherwise untouched response with ONE extra field (or reason phrase) carrying ISO-8859-1 / arbitrary high octets
+        k = data.find(b"\r\n") + 2
+        junk = bytes(rng.choice([rng.randrange(0x80, 0x100), rng.randrange(0x20, 0x7F)]) for _ in range(rng.randint(1, 20)))
+        if rng.random() < 0.8:
+            data = data[:k] + rng.choice([b"Server: ", b"X-Info: ", b"Set-Cookie: n="]) + junk + b"\r\n" + data[k:]
+        else:
+            data = data[:k - 2] + b" " + junk + data[k - 2:]
+    else:
+        rec, tag = oversized_recipe(rng, "client", data[:data.find(b"\r\n\r\n") + 4], tier)
+        base.pop("data", None)
+        base["recipe"] = rec
+        base["tag"] = "hostile/" + tag
+        return finish_case(rng, base)
+    base["tag"] = "hostile/" + mode
+    return finish_case(rng, base, data)
+
+
+# ------------------------------------------------------------------------------------------------
+# execution + judgement of one endpoint case
+# ------------------------------------------------------------------------------------------------
+
+def _server_pmce_accept(offers):
+    from autobahn.websocket.compress import PerMessageDeflateOffer, PerMessageDeflateOfferAccept
+
+    for o in offers:
+        if isinstance(o, PerMessageDeflateOffer):
+            return PerMessageDeflateOfferAccept(o)
+    return None
+
+
+def _client_pmce_accept(response):
+    from autobahn.websocket.compress import PerMessageDeflateResponse, PerMessageDeflateResponseAccept
+
+    if isinstance(response, PerMessageDeflateResponse):
+        return PerMessageDeflateResponseAccept(response)
+    return None
+
+
+def _all_escaped(w):
+    seen, out = set(), []
+    for _name, e in w.world.escaped:
+        if id(e.exc) not in seen:
+            seen.add(id(e.exc))
+            out.append(e)
+    return out
+
+
+def _opened(ep):
+    from vf.ws import app_events
+
+    st = ep.proto.__dict__.get("vf_state_log", [])
+    return any(new == 3 for _old, new in st) or any(e[1] == "onOpen" for e in app_events(ep))
+
+
+def _reason_slug(text):
+    text = re.sub(r"\"[^\"]*\"|'[^']*'|\[[^\]]*\]|\([^)]*\)", "", text or "")
+    text = re.sub(r"[0-9]+", "", text)
+    return slug(text, 44) or "none"
+
+
+NEL = b"\x85"
+
+
+def _nel_mechanism(role, data, ocfg):
+    """Mechanism classifier for 'opened on must-reject': would the verdict change if U+0085 were a line end?"""
+    if NEL not in data:
+        return None
+    alts = [data.replace(NEL, b"\r\n")]
+    pos = [i for i in range(len(data)) if data[i] == 0x85][:24]
+    alts += [data[:i] + b"\r\n" + data[i + 1:] for i in pos]
+    # all of them except those next to a real line end (which would fabricate an empty line = end of the block)
+    alts.append(re.sub(rb"(?<!\n)\x85(?!\r)", b"\r\n", data))
+    for alt in alts:
+        v = H.classify_request(alt, ocfg) if role == "server" else H.classify_response(alt, ocfg)
+        if v.cls != "reject":
+            return "nel-line-split"
+    return None
+
+
+def judge(role, case, ep, w, R, fw, data, verdict, ocfg, oht, t_fed, extra_post):
+    """Compare what the endpoint did with the classifier's verdict.  Returns True when the deciding monitor compared something."""
+    tag_class = case["tag"].split("/")[0]
+    viol = lambda key, what, **detail: R.violation(key, what, dict(detail, tag=case["tag"], fw=fw, verdict=repr(verdict)), replay=case)  # noqa: E731
+    esc = _all_escaped(w)
+    R.count("escape_monitor_inputs")
+    if tag_class == "hostile":
+        R.count("hostile_inputs_monitored")
+    if esc:
+        for e in esc:
+            viol(escape_key(role, e.exc), "exception reached the networking framework (%s): %r" % (e.where, e.exc),
+                 traceback="".join(traceback.format_exception(type(e.exc), e.exc, e.exc.__traceback__))[-1500:])
+        R.seen("escaped_exception_types", type(esc[0].exc).__name__)
+        return True      # the framework tore the connection down: nothing further to compare
+    opened = _opened(ep)
+    out = bytes(ep.all_out)
+    if role == "server":
+        wrote101 = bool(re.match(rb"HTTP/1\.[01] 101", out))
+        if wrote101 != opened:
+            viol("C07/server/101-vs-open-mismatch", "101 written=%s but OPEN reached=%s" % (wrote101, opened), out=out[:200].hex())
+    dropped = ep.close_requested is not None or ep.lost
+    cls = verdict.cls
+    R.count("%s_verdict_%s" % (role, cls))
+    R.seen("verdict_x_tag", "%s/%s/%s" % (role, cls, case["tag"]))
+    if cls == "accept":
+        if not opened:
+            why = (out.split(b"\r\n")[0].decode("latin-1")[9:] if role == "server" else str(getattr(ep.proto, "wasNotCleanReason", None)))
+            viol("C07/%s/refused/must-accept/%s" % (role, _reason_slug(why)), "a valid handshake was refused: %s" % why[:200], out=out[:300].hex(),
+                 dropped=dropped)
+        else:
+            R.count("%s_must_accept_opened" % role)
+            R.seen("%s_accept_variations" % role, case["tag"] + "/" + case["seg"])
+            for clause, text in extra_post(verdict):
+                viol("C07/%s/postcondition/%s" % (role, clause), text, out=out[:400].hex())
+            rest = verdict.info.get("rest") or b""
+            if rest:
+                from vf.ws import app_events
+
+                got = [e for e in app_events(ep) if e[1] == "onMessage"]
+                R.count("trailing_frame_delivered" if got else "trailing_frame_not_delivered")
+                if not got:
+                    R.seen("trailing_frame_not_delivered_tags", case["tag"][:24])
+            else:
+                # admitted means admitted: the opening-handshake timer must not fire on an open connection
+                w.world.advance(oht + 1.5)
+                R.count("open_after_timeout_checked")
+                if ep.close_requested is not None or ep.lost or getattr(ep.proto, "state", None) != 3 or _all_escaped(w):
+                    viol("C07/%s/dropped-after-open" % role, "connection admitted, then dropped/failed when the opening-handshake timeout expired",
+                         state=getattr(ep.proto, "state", None), close_requested=ep.close_requested, escaped=repr(_all_escaped(w))[:300])
+    elif cls == "reject":
+        reason = verdict.reasons[0]
+        if opened:
+            mech = _nel_mechanism(role, data, ocfg)
+            viol("C07/%s/opened/must-reject/%s" % (role, mech or reason), "handshake completed for an input that must be rejected (%s)" % ",".join(verdict.reasons),
+                 out=out[:300].hex())
+        else:
+            R.count("%s_must_reject_refused" % role)
+            R.seen("%s_reject_classes" % role, reason)
+            R.seen("%s_reject_mutations" % role, case["tag"])
+            if not dropped:
+                viol("C07/%s/not-dropped/must-reject/%s" % (role, reason), "invalid handshake neither answered with a drop nor an HTTP error + drop", out=out[:200].hex())
+            elif role == "server":
+                R.seen("server_refusal_status", out[:12].decode("latin-1"))
+    else:
+        if cls == "grey":
+            R.count("grey_cases")
+            R.seen("grey_reasons", (verdict.grey or ["?"])[0])
+            R.count("grey_opened" if opened else "grey_refused")
+            if opened:
+                for clause, text in extra_post(verdict):
+                    viol("C07/%s/postcondition/%s" % (role, clause), text, out=out[:400].hex(), grey=verdict.grey)
+        else:
+            R.count("incomplete_cases")
+            if opened:
+                viol("C07/%s/opened/incomplete" % role, "handshake completed although the header block never ended", out=out[:200].hex())
+    # ---- whoever is still waiting must be dropped by the opening-handshake timeout (never open later)
+    if not opened and not dropped:
+        w.world.advance_to(t_fed + oht + 1.0)
+        R.count("timeouts_evaluated")
+        if _all_escaped(w):
+            for e in _all_escaped(w):
+                viol(escape_key(role, e.exc), "exception reached the framework from the opening-handshake timer: %r" % (e.exc,))
+        elif _opened(ep):
+            viol("C07/%s/opened/at-timeout" % role, "connection opened while waiting for the rest of the header block")
+        elif ep.close_requested is None and not ep.lost:
+            viol("C07/%s/timeout/not-dropped" % role, "peer that never completed the handshake is still connected after openHandshakeTimeout+1s",
+                 oht=oht, size=len(data), timers=w.world.pending_timers()[:5])
+        else:
+            R.count("timeouts_dropped")
+            if len(data) > 60000:
+                R.count("oversized_dropped_at_timeout")
+    return True
+
+
+def run_server_case(case, R, fw):
+    from vf.ws import WS
+
+    cfg = case["cfg"]
+    data = case_data(case)
+    ocfg = oracle_server_cfg(cfg)
+    verdict = H.classify_request(data, ocfg)
+    intent = case["tag"].split("/")[0]
+    if intent in ("accept", "reject") and verdict.cls != intent:
+        R.count("generator_intent_mismatch")
+        R.seen("generator_intent_mismatch_tags", "%s->%s %s" % (case["tag"], verdict.cls, (verdict.reasons + verdict.grey)[:2]))
+    w = WS()
+    try:
+        opts = dict(versions=list(cfg["versions"]), webStatus=cfg["webstatus"], allowedOrigins=list(cfg["origins"]), allowNullOrigin=cfg["null"],
+                    maxConnections=cfg["maxc"], trustXForwardedFor=cfg["trust"], openHandshakeTimeout=cfg["oht"])
+        if cfg["pmce"]:
+            opts["perMessageCompressionAccept"] = _server_pmce_accept
+        if cfg.get("flash"):
+            opts["serveFlashSocketPolicy"] = True
+        sf = w.server_factory("ws://127.0.0.1:9000", options=opts, externalPort=cfg["xport"])
+        protos = cfg["protos"]
+        sf.vf_on_connect = lambda proto, req: next((p_ for p_ in req.protocols if p_ in protos), None)
+        priors = [w.attach(sf, "prior%d" % i) for i in range(cfg["prior"])]
+        for p_ in priors[:cfg["closed"]]:
+            p_.peer_close(bool(len(priors) & 1))
+        if sum(1 for p_ in priors if not p_.lost) != conn_index(cfg) - 1:      # counted on the harness' own transports, not in the library
+            raise RuntimeError("harness: connection history not as planned")
+        s = w.attach(sf, "server")
+        for chunk in case_segments(case, data):
+            if s.close_requested is not None or s.lost:
+                break
+            s.feed(chunk)
+            if fw == "tx":
+                w.world.settle()
+        w.world.settle()
+        R.count("evaluations")
+        R.count("server_cases")
+        R.seen("server_configs", h([cfg["versions"], cfg["scenario"], cfg["null"], cfg["maxc"], bool(cfg["xport"]), cfg["webstatus"], cfg["pmce"], cfg["trust"]]))
+
+        def post(v):
+            probs = H.check_server_response(bytes(s.all_out), v)
+            R.count("digests_recomputed")
+            pr = s.proto.websocket_protocol_in_use
+            want = next((p_ for p_ in v.info.get("protocols", []) if p_ in protos), None)
+            if not (set(v.anomalies) & H.STRUCTURAL) and v.cls == "accept" and pr != want:
+                probs.append(("protocol-selection", "in use %r, onConnect chose %r" % (pr, want)))
+            if pr is not None:
+                R.count("subprotocol_selected")
+            if getattr(s.proto, "_perMessageCompress", None) is not None:
+                R.count("server_pmce_negotiated")
+            return probs
+
+        fired = judge("server", case, s, w, R, fw, data, verdict, ocfg, cfg["oht"], w.world.now(), post)
+        if fired:
+            R.seen("nontrivial", h([fw, "server", case["tag"], cfg, case["seg"], case.get("data") or case.get("recipe")]))
+        R.seen("segmentations", "server/" + case["seg"])
+        return verdict, s
+    finally:
+        if fw == "aio":
+            w.world.close()
+
+
+def run_client_case(case, R, fw):
+    from vf.ws import WS
+
+    cfg = case["cfg"]
+    nonce = bytes.fromhex(case["nonce"])
+    data = case_data(case)
+    ocfg = oracle_client_cfg(cfg, nonce)
+    verdict = H.classify_response(data, ocfg)
+    intent = case["tag"].split("/")[0]
+    if intent in ("accept", "reject") and verdict.cls != intent:
+        R.count("generator_intent_mismatch")
+        R.seen("generator_intent_mismatch_tags", "%s->%s %s" % (case["tag"], verdict.cls, (verdict.reasons + verdict.grey)[:2]))
+    viol = lambda key, what, **detail: R.violation(key, what, dict(detail, tag=case["tag"], fw=fw), replay=case)  # noqa: E731
+    w = WS()
+    try:
+        from autobahn.websocket.compress import PerMessageDeflateOffer
+
+        opts = dict(version=cfg["spec"], openHandshakeTimeout=cfg["oht"])
+        if cfg["offer"]:
+            opts["perMessageCompressionOffers"] = [PerMessageDeflateOffer(accept_max_window_bits=bool(cfg["offer_bits"]))]
+        if cfg["approve"]:
+            opts["perMessageCompressionAccept"] = _client_pmce_accept
+        url = build_url(cfg)
+        cf = w.client_factory(url, options=opts, protocols=list(cfg["protos"]), origin=cfg["origin"], useragent=cfg["ua"], headers=dict(cfg["headers"]))
+        real = os.urandom
+        os.urandom = lambda n: nonce if n == 16 else real(n)
+        try:
+            c = w.attach(cf, "client")
+            w.world.settle()
+        finally:
+            os.urandom = real
+        req = c.take_output()
+        R.count("evaluations")
+        R.count("client_cases")
+        # ---- the request versus the components its URL was built from
+        if not _all_escaped(w):
+            hreq = H.Head(req)
+            if hreq.values("sec-websocket-key") != [key_of(nonce)]:
+                raise RuntimeError("harness: nonce injection failed: %r" % (hreq.values("sec-websocket-key"),))
+            R.count("client_requests_compared")
+            R.seen("client_urls", url)
+            want_target = (cfg["path"] or "/") + ("?" + cfg["query"] if cfg["query"] else "")
+            for clause, text in H.check_client_request(req, cfg["host"], cfg["port"], cfg["path"], cfg["query"], cfg["secure"]):
+                if clause == "request-target":
+                    got = hreq.start.split(" ")[1] if hreq.start.count(" ") == 2 else ""
+                    stripped = re.sub(r";[^/]*$", "", cfg["path"] or "/") + ("?" + cfg["query"] if cfg["query"] else "")
+                    clause += "/path-params-dropped" if (";" in cfg["path"] and got == stripped) else "/other"
+                viol("C07/client/request/%s" % clause, "request does not target its URL %r: %s" % (url, text), request=req[:300].decode("latin-1"))
+            rv = H.classify_request(req, H.ServerCfg(versions=[8, 13]))
+            if rv.cls in ("reject", "incomplete"):
+                viol("C07/client/request/invalid-handshake/%s" % (rv.reasons or ["incomplete"])[0], "the client's own request is not a valid opening handshake",
+                     request=req[:300].decode("latin-1"))
+            elif rv.info["protocols"] != list(cfg["protos"]):
+                viol("C07/client/request/protocols", "offered %r, configured %r" % (rv.info["protocols"], cfg["protos"]))
+            else:
+                R.count("client_requests_valid")
+        for chunk in case_segments(case, data):
+            if c.close_requested is not None or c.lost:
+                break
+            c.feed(chunk)
+            if fw == "tx":
+                w.world.settle()
+        w.world.settle()
+
+        def post(v):
+            probs = []
+            R.count("digests_recomputed")
+            if not (set(v.anomalies) & H.STRUCTURAL):
+                if v.cls == "accept" and c.proto.websocket_protocol_in_use != v.info.get("protocol"):
+                    probs.append(("protocol-in-use", "in use %r, response selected %r" % (c.proto.websocket_protocol_in_use, v.info.get("protocol"))))
+                if c.proto.websocket_protocol_in_use is not None and c.proto.websocket_protocol_in_use not in cfg["protos"]:
+                    probs.append(("protocol-not-requested", "in use %r, requested %r" % (c.proto.websocket_protocol_in_use, cfg["protos"])))
+                pm = getattr(c.proto, "_perMessageCompress", None)
+                if v.cls == "accept" and (pm is not None) != bool(v.info.get("ext_names")):
+                    probs.append(("extension-in-use", "compression active=%s, response named %r" % (pm is not None, v.info.get("ext_names"))))
+                if pm is not None:
+                    R.count("client_pmce_negotiated")
+                    if not cfg["approve"]:
+                        probs.append(("extension-not-approved", "compression active although the accept policy approves nothing"))
+            return probs
+
+        if verdict.cls == "reject" and verdict.reasons[0].startswith("accept-"):
+            R.count("digests_recomputed")
+        fired = judge("client", case, c, w, R, fw, data, verdict, ocfg, cfg["oht"], w.world.now(), post)
+        if fired:
+            R.seen("nontrivial", h([fw, "client", case["tag"], cfg, case["seg"], case.get("data") or case.get("recipe")]))
+        R.seen("segmentations", "client/" + case["seg"])
+        return verdict, c
+    finally:
+        if fw == "aio":
+            w.world.close()
+
+
+# ------------------------------------------------------------------------------------------------
+# the library's own client x server option matrix
+# ------------------------------------------------------------------------------------------------
+SPEC_VERSIONS = [10, 11, 12, 13, 14, 15, 16, 17, 18]
+M_OFFERS = ["none", "none", "deflate", "deflate", "deflate-nobits", "deflate-req", "bzip2+deflate"]
+M_SERVER_PMCE = ["none", "deflate", "deflate", "deflate-params"]
+
+
+def gen_matrix_case(rng):
+    sc = rng.choice(ORIGIN_SCENARIOS) if rng.random() < 0.6 else ORIGIN_SCENARIOS[0]
+    port = rng.choice([9000, 9000, 80, 8080, 443])
+    r = rng.random()
+    if r < 0.45:
+        origin = None
+    elif r < 0.8 or not sc["reject"]:
+        origin = rng.choice(sc["accept"])
+    elif r < 0.9:
+        origin = rng.choice(sc["reject"])[1]
+    else:
+        origin = "null"
+    maxc = rng.choice([0, 0, 0, 1, 2, 3])
+    s = {"versions": rng.choice([[8, 13], [8, 13], [8, 13], [13], [8]]), "scenario": sc["name"], "origins": list(sc["allowed"]), "null": rng.random() < 0.5,
+         "maxc": maxc, "prior": rng.randint(0, maxc + 1) if maxc else rng.choice([0, 0, 1]), "xport": rng.choice([None, None, port, port, port + 1]),
+         "protos": rng.sample(PROTO_POOL, rng.randint(0, 4)), "pmce": rng.choice(M_SERVER_PMCE),
+         "headers": rng.choice([None, None, {"X-Srv": "a"}, {"X-Srv": ["a", "b"], "Set-Cookie": "s=1"}]),
+         "server": rng.choice(["default", "default", None, "", "vf-server/1"]), "trust": rng.choice([0, 0, 1])}
+    c = {"spec": rng.choice(SPEC_VERSIONS + [18, 18, 18]), "protos": rng.sample(PROTO_POOL, rng.choice([0, 1, 2, 3, 6])), "offers": rng.choice(M_OFFERS),
+         "approve": rng.random() < 0.85, "origin": origin, "headers": rng.choice([None, None, {"X-Custom": "1"}, {"Cookie": "a=b", "X-Forwarded-For": "10.1.1.1"}]),
+         "ua": rng.choice(["default", "default", None, "vf-agent/1"]), "port": port, "path": rng.choice(["", "/", "/chat", "/a/b"]),
+         "query": rng.choice([None, None, "x=1&y=2"]), "oht": rng.choice([1, 2, 5])}
+    return {"kind": "matrix", "tag": "matrix", "s": s, "c": c, "seg": rng.choice(SEG_SMALL_ONLY), "segseed": rng.getrandbits(32)}
+
+
+def _pump(link, w, rng, policy):
+    for _ in range(200000):
+        link.collect()
+        srcs = [ep for ep in (link.a, link.b) if link.inflight[id(ep)]]
+        if not srcs:
+            w.world.settle()
+            link.collect()
+            if not any(len(v) for v in link.inflight.values()):
+                return
+            continue
+        src = rng.choice(srcs)
+        dst = link.peer_of(src)
+        avail = len(link.inflight[id(src)])
+        if dst.close_requested is not None or dst.lost:
+            del link.inflight[id(src)][:]        # a closing transport reads nothing more
+            continue
+        n = {"whole": avail, "bytewise": 1, "small": rng.randint(1, 4), "halves": max(1, avail // 2),
+             "random": rng.choice([1, 1, 2, 3, 5, 8, 13, 64, 1000])}[policy]
+        link.deliver(src, n)
+        w.world.settle()
+    raise RuntimeError("harness: pump did not quiesce")
+
+
+def run_matrix_case(case, R, fw):
+    from autobahn.websocket import compress as CP
+    from vf.ws import WS, Link, app_events, is_open
+
+    s, c = case["s"], case["c"]
+    rng = random.Random(case["segseed"])
+    viol = lambda key, what, **detail: R.violation(key, what, dict(detail, fw=fw), replay=case)  # noqa: E731
+    w = WS()
+    try:
+        sopts = dict(versions=list(s["versions"]), allowedOrigins=list(s["origins"]), allowNullOrigin=s["null"], maxConnections=s["maxc"],
+                     trustXForwardedFor=s["trust"], openHandshakeTimeout=5)
+        if s["pmce"] != "none":
+            def saccept(offers, params=(s["pmce"] == "deflate-params")):
+                for o in offers:
+                    if isinstance(o, CP.PerMessageDeflateOffer):
+                        if params:
+                            return CP.PerMessageDeflateOfferAccept(o, request_no_context_takeover=o.accept_no_context_takeover,
+                                                                   request_max_window_bits=10 if o.accept_max_window_bits else 0,
+                                                                   no_context_takeover=True, window_bits=11 if not o.request_max_window_bits else None)
+                        return CP.PerMessageDeflateOfferAccept(o)
+                return None
+            sopts["perMessageCompressionAccept"] = saccept
+        skw = {"externalPort": s["xport"]}
+        if s["headers"]:
+            skw["headers"] = dict(s["headers"])
+        if s["server"] != "default":
+            skw["server"] = s["server"]
+        sf = w.server_factory("ws://127.0.0.1:%d" % c["port"], options=sopts, **skw)
+        sprotos = s["protos"]
+        sf.vf_on_connect = lambda proto, req: next((p_ for p_ in req.protocols if p_ in sprotos), None)
+        for i in range(s["prior"]):
+            pl = w.open_pair(sf, w.client_factory("ws://127.0.0.1:%d" % c["port"]))
+            del pl
+        copts = dict(version=c["spec"], openHandshakeTimeout=c["oht"])
+        offers = {"none": [], "deflate": [CP.PerMessageDeflateOffer()],
+                  "deflate-nobits": [CP.PerMessageDeflateOffer(accept_no_context_takeover=False, accept_max_window_bits=False)],
+                  "deflate-req": [CP.PerMessageDeflateOffer(request_no_context_takeover=True, request_max_window_bits=10)]}.get(c["offers"])
+        if offers is None:
+            from autobahn.websocket.compress import PerMessageBzip2Offer
+
+            offers = [PerMessageBzip2Offer(), CP.PerMessageDeflateOffer()]
+        if offers:
+            copts["perMessageCompressionOffers"] = offers
+        if c["approve"]:
+            copts["perMessageCompressionAccept"] = _client_pmce_accept
+        ckw = {"protocols": list(c["protos"]), "origin": c["origin"]}
+        if c["headers"]:
+            ckw["headers"] = dict(c["headers"])
+        if c["ua"] != "default":
+            ckw["useragent"] = c["ua"]
+        url = "ws://127.0.0.1:%d%s%s" % (c["port"], c["path"], "?" + c["query"] if c["query"] else "")
+        cf = w.client_factory(url, options=copts, **ckw)
+        se = w.attach(sf, "server")
+        ce = w.attach(cf, "client")
+        link = Link(w.world, ce, se)
+        _pump(link, w, rng, case["seg"])
+        R.count("evaluations")
+        R.count("matrix_cases")
+        esc = _all_escaped(w)
+        for e in esc:
+            viol(escape_key("matrix", e.exc), "exception reached the networking framework (%s): %r" % (e.where, e.exc))
+        if esc:
+            return
+        # ---- expectation from the configuration alone
+        pver = 8 if c["spec"] <= 12 else 13
+        version_ok = pver in s["versions"]
+        origin_ok, origin_grey = True, False
+        if c["origin"] is not None:
+            if c["origin"] == "null":
+                origin_ok = s["null"]
+            else:
+                norm = H.normalize_origin(c["origin"])
+                origin_ok = norm is not None and any(H.glob_match(p_, norm) for p_ in s["origins"])
+            # hybi drafts 11/12 renamed the header to Origin while keeping version 8: which header counts is not asserted
+            origin_grey = c["spec"] in (11, 12) and not origin_ok
+        limit_ok = s["maxc"] == 0 or s["prior"] + 1 <= s["maxc"]
+        port_ok = s["xport"] is None or s["xport"] == c["port"]
+        pmce_agreed = c["offers"] != "none" and s["pmce"] != "none"
+        policy_ok = not (pmce_agreed and not c["approve"])
+        expect_open = version_ok and origin_ok and limit_ok and port_ok and policy_ok
+        both_open = is_open(ce) and is_open(se)
+        R.seen("matrix_combos", h([c["spec"], s["versions"], bool(c["protos"]), bool(s["protos"]), c["offers"], s["pmce"], c["approve"], s["scenario"],
+                                   c["origin"], bool(s["maxc"]), s["xport"] == c["port"], bool(c["headers"]), bool(s["headers"]), c["ua"], s["server"]]))
+        R.seen("nontrivial", h([fw, "matrix", s, c, case["seg"]]))
+        why = "version_ok=%s origin_ok=%s limit_ok=%s port_ok=%s policy_ok=%s" % (version_ok, origin_ok, limit_ok, port_ok, policy_ok)
+        if origin_grey:
+            R.count("matrix_grey")
+        elif expect_open and not both_open:
+            reason = str(getattr(ce.proto, "wasNotCleanReason", None) or getattr(se.proto, "wasNotCleanReason", None))
+            viol("C07/matrix/not-opened/%s" % _reason_slug(reason), "own client and server did not complete the handshake under a supported combination: %s" % reason[:200],
+                 why=why)
+        elif not expect_open and (_opened(ce) or ((is_open(se) or _opened(se)) and not (version_ok and origin_ok and limit_ok and port_ok))):
+            # (when only the CLIENT's accept policy declines, the server has legitimately answered 101 and is open until the client drops)
+            first = "version" if not version_ok else "origin" if not origin_ok else "limit" if not limit_ok else "port" if not port_ok else "client-policy"
+            viol("C07/matrix/opened/%s" % first, "connection opened although the configuration forbids it", why=why)
+        elif not expect_open:
+            R.count("matrix_pairs_refused")
+            R.seen("matrix_refusal_causes", why)
+            link.propagate_closes()
+        else:
+            R.count("matrix_pairs_opened")
+            want = next((p_ for p_ in c["protos"] if p_ in sprotos), None)
+            got = (ce.proto.websocket_protocol_in_use, se.proto.websocket_protocol_in_use)
+            if got != (want, want):
+                viol("C07/matrix/subprotocol", "negotiated %r, expected %r on both sides" % (got, want))
+            pm = (ce.proto._perMessageCompress is not None, se.proto._perMessageCompress is not None)
+            if pm != (pmce_agreed, pmce_agreed):
+                viol("C07/matrix/extension", "compression active (client, server)=%r, expected %r" % (pm, pmce_agreed))
+            if pmce_agreed:
+                R.count("matrix_pmce_pairs")
+            # the admitted connection carries one message each way (both sides agree on what was negotiated)
+            ce.proto.sendMessage(b"vf-hello-from-client", False)
+            se.proto.sendMessage(b"vf-hello-from-server", True)
+            w.world.settle()
+            _pump(link, w, rng, case["seg"])
+            gm = ([e[2] for e in app_events(se, ("onMessage",))], [e[2] for e in app_events(ce, ("onMessage",))])
+            if gm != ([b"vf-hello-from-client"], [b"vf-hello-from-server"]) or _all_escaped(w):
+                viol("C07/matrix/first-message", "messages after the handshake were not delivered: %r escaped=%r" % (gm, _all_escaped(w)))
+            else:
+                R.count("matrix_messages_exchanged")
+        R.seen("segmentations", "matrix/" + case["seg"])
+    finally:
+        if fw == "aio":
+            w.world.close()
+
+
+# ------------------------------------------------------------------------------------------------
+# exhaustive little families (every mutation x every segmentation policy at least once per run)
+# ------------------------------------------------------------------------------------------------
+
+def systematic_cases(rng):
+    """Every reject/grey mutation name, server and client, under every segmentation policy; plus every origin look-alike of every
+    scenario, every connection-limit boundary (index = limit-1, limit, limit+1) and every wrong-digest variant."""
+    out = []
+    for seg in SEG_SMALL_ONLY:
+        for name in sorted(server_reject_mutations({})):
+            c = gen_server_case(rng, "reject", force=name)
+            c["seg"] = seg
+            out.append(c)
+        for name in sorted(server_grey_mutations()):
+            c = gen_server_case(rng, "grey", force=name)
+            c["seg"] = seg
+            out.append(c)
+        for name in sorted(client_reject_mutations()):
+            c = gen_client_case(rng, "reject", force=name)
+            c["seg"] = seg
+            out.append(c)
+        for name in sorted(client_grey_mutations()):
+            c = gen_client_case(rng, "grey", force=name)
+            c["seg"] = seg
+            out.append(c)
+    # origin look-alikes: all of them
+    for sc in ORIGIN_SCENARIOS:
+        for ver in (13, 8):
+            for kind, o in [("ok", x) for x in sc["accept"]] + list(sc["reject"]):
+                cfg = gen_server_cfg(rng)
+                cfg.update(scenario=sc["name"], origins=list(sc["allowed"]), versions=[8, 13], maxc=0, prior=0, closed=0, xport=None)
+                sp, _ = accept_request_spec(rng, cfg)
+                hdel(sp, "Origin")
+                hdel(sp, "Sec-WebSocket-Origin")
+                hset(sp, "Sec-WebSocket-Version", str(ver))
+                sp["h"].append(["Origin" if ver >= 13 else "Sec-WebSocket-Origin", o, " ", ""])
+                tag = "accept/origin/%s" % sc["name"] if kind == "ok" else "reject/origin-lookalike/%s" % kind
+                out.append(finish_case(rng, {"kind": "server", "tag": tag, "cfg": cfg}, build_msg(sp)))
+    # connection limit boundaries
+    for maxc in (1, 2, 3, 5):
+        for closed in (0, 1, 2):
+            for delta in (-1, 0, 1, 2):
+                idx = maxc + delta          # index of the connection under test
+                if idx < 1:
+                    continue
+                cfg = gen_server_cfg(rng)
+                cfg.update(maxc=maxc, prior=idx - 1 + closed, closed=closed, scenario="default", origins=["*"], xport=None)
+                sp, _ = accept_request_spec(rng, cfg)
+                tag = "accept/limit-boundary" if idx <= maxc else "reject/max-connections/boundary"
+                out.append(finish_case(rng, {"kind": "server", "tag": tag, "cfg": cfg}, build_msg(sp)))
+    # every wrong-digest variant
+    seen = set()
+    for _ in range(3000):
+        c = gen_client_case(rng, "reject")
+        if c["tag"].startswith("reject/accept-wrong/") and c["tag"] not in seen:
+            seen.add(c["tag"])
+            out.append(c)
+        if len(seen) >= 19:
+            break
+    return out
+
+
+# ------------------------------------------------------------------------------------------------
+# shards
+# ------------------------------------------------------------------------------------------------
+SIZES = {  # per shard: (server accept, server reject, server grey, server hostile, client accept, client reject, client grey, client hostile, url, matrix)
+    "quick": (320, 600, 280, 840, 220, 400, 180, 520, 120, 300),
+    "thorough": (1100, 2100, 1000, 2900, 770, 1400, 630, 1800, 420, 1050),
+    "pure": (800, 1500, 700, 2100, 550, 1000, 450, 1300, 300, 750),
+}
+
+
+def _private_nvx():
+    """The shared build directory (.build/nvx-ship-<digest>) is evicted by OTHER checks' builds (build_nvx keeps the 10 newest by
+    mtime and never refreshes the mtime of a reused one): copy it into this run's own work directory, which the runner removes."""
+    import shutil
+
+    from vf import bootstrap, build_nvx
+
+    dst = os.path.join(bootstrap.VERIF_ROOT, ".build", "run-%s-%d" % (PROPERTY, os.getpid()), "nvx")
+    if os.path.exists(os.path.join(dst, "BUILD_OK")):
+        return dst
+    last = None
+    for _ in range(5):
+        try:
+            src = build_nvx.build("ship")
+            shutil.copytree(src, dst, dirs_exist_ok=True)
+            if os.path.exists(os.path.join(dst, "BUILD_OK")) and any(n.endswith(".so") for n in os.listdir(dst)):
+                return dst
+        except Exception as e:      # evicted while copying: build again
+            last = e
+        shutil.rmtree(dst, ignore_errors=True)
+    raise RuntimeError("NVX build could not be secured: %r" % (last,))
+
+
+def prepare(tier):
+    try:
+        _private_nvx()
+    except Exception as e:
+        print("CANNOT-BUILD: %s" % e)
+        return False
+    return True
+
+
+def shards(tier, seed):
+    out = []
+    env_nvx = {"VERIF_NVX_DIR": _private_nvx(), "AUTOBAHN_USE_NVX": "1"}
+    parts = 8 if tier == "quick" else 24
+    for fw in ("tx", "aio"):
+        for i in range(parts):
+            out.append({"name": "%s-%d" % (fw, i), "fw": fw, "env": env_nvx, "timeout": 1800,
+                        "params": {"tier": tier, "seed": seed, "part": i, "parts": parts, "nvx": 1}})
+    if tier == "thorough":
+        for fw in ("tx", "aio"):
+            for i in range(3):
+                out.append({"name": "%s-pure-%d" % (fw, i), "fw": fw, "env": {"AUTOBAHN_USE_NVX": "0"}, "timeout": 1800,
+                            "params": {"tier": "pure", "seed": seed, "part": i, "parts": 3, "nvx": 0}})
+    return out
+
+
+def run_case(case, R, fw):
+    if case["kind"] == "server":
+        return run_server_case(case, R, fw)
+    if case["kind"] == "client":
+        return run_client_case(case, R, fw)
+    return run_matrix_case(case, R, fw)
+
+
+def run_shard(params, R):
+    logging.disable(logging.CRITICAL)
+    import txaio
+
+    H.selfcheck()
+    ref.selfcheck()
+    fw = "tx" if txaio.using_twisted else "aio"
+    nvx = params.get("nvx", 1)
+    if nvx:
+        from vf import build_nvx
+
+        build_nvx.assert_fresh()
+    import autobahn.websocket as W
+
+    R.note("uses_nvx", bool(W.USES_NVX))
+    if bool(W.USES_NVX) != bool(nvx):
+        raise RuntimeError("NVX selection mismatch: wanted %s, USES_NVX=%s" % (nvx, W.USES_NVX))
+    tier, part, parts, seed = params["tier"], params["part"], params["parts"], params["seed"]
+    for k in DECIDING:
+        if k not in ("server_reject_classes", "client_reject_classes", "server_reject_mutations", "client_reject_mutations", "segmentations"):
+            R.count(k, 0)
+    rng = random.Random((seed * 1000003 + part * 7919 + (17 if fw == "aio" else 0) + (31 if nvx else 0)) & 0xFFFFFFFF)
+    # ---- systematic families: generated from the seed alone (same list in every shard), dealt round-robin
+    srng = random.Random(seed * 7 + 3)
+    for i, case in enumerate(systematic_cases(srng)):
+        if i % parts == part:
+            run_case(case, R, fw)
+            R.count("systematic_cases")
+    # ---- generated classes
+    sa, sr, sg, sh, ca, cr, cg, ch, cu, mx = SIZES[tier]
+    plan = ([("server", "accept")] * sa + [("server", "reject")] * sr + [("server", "grey")] * sg + [("server", "hostile")] * sh +
+            [("client", "accept")] * ca + [("client", "reject")] * cr + [("client", "grey")] * cg + [("client", "hostile")] * ch +
+            [("client", "url")] * cu + [("matrix", "")] * mx)
+    rng.shuffle(plan)
+    gen_tier = "thorough" if tier == "thorough" else "quick"
+    for n, (kind, klass) in enumerate(plan):
+        if kind == "server":
+            case = gen_server_hostile(rng, gen_tier) if klass == "hostile" else gen_server_case(rng, klass)
+        elif kind == "client":
+            case = gen_client_hostile(rng, gen_tier) if klass == "hostile" else gen_client_case(rng, klass)
+        else:
+            case = gen_matrix_case(rng)
+        res = run_case(case, R, fw)
+        if res is not None and case["kind"] != "matrix" and len(case.get("data", "")) < 1600:
+            R.sample({"kind": case["kind"], "tag": case["tag"], "seg": case["seg"], "octets_hex": case.get("data"), "verdict": res[0].cls,
+                      "verdict_reasons": (res[0].reasons + res[0].grey)[:3], "opened": _opened(res[1]), "close_requested": res[1].close_requested,
+                      "wrote": bytes(res[1].all_out)[:60].decode("latin-1")}, kind="%s-%s" % (case["kind"], res[0].cls), every=37)
+        if n % 500 == 499:
+            gc.collect()
+
+
+def replay(case, R):
+    logging.disable(logging.CRITICAL)
+    import txaio
+
+    H.selfcheck()
+    fw = "tx" if txaio.using_twisted else "aio"
+    run_case(case, R, fw)
+
+
+MANIFEST_ENTRY = {
+    "text": ("One real WebSocket endpoint per case (server or client, Twisted and asyncio adapters, fake transports, virtual clock) is fed generated "
+             "opening-handshake octets under five read segmentations (incl. 1-byte trickle); what it did at the boundary (101 written, state OPEN / "
+             "onOpen, HTTP error, transport close request, exception reaching the framework or the loop's exception handler) is compared with the "
+             "verdict of an independent RFC 6455 section 4 classifier (vf/c07_handshake.py: must-accept / must-reject / grey / incomplete; digest "
+             "recomputed with hashlib). Must-accept = grammar-valid requests/responses with legitimate variation (header case/order, OWS, extra "
+             "fields, token lists, split list fields, trailing frame, connection count AT the limit); must-reject = exactly one required element "
+             "removed/duplicated/corrupted or one policy violated (method, HTTP version, Host, Upgrade/Connection tokens, key length/alphabet/padding, "
+             "version not configured, duplicate subprotocol, origin look-alikes such as good.com.evil.com / evilgood.com / port prefixes against "
+             "four allow-lists, null origin, connection limit exceeded after a history of opened and closed connections, wrong/duplicate/truncated "
+             "accept digest, foreign subprotocol, unknown/unoffered/declined extension, required field hidden behind U+0085). Accepted handshakes are "
+             "checked for the right Sec-WebSocket-Accept, a subprotocol from the client's list, only offered extensions, and for staying open "
+             "past the opening-handshake timeout; endpoints still waiting must be dropped by that timeout. Client requests are compared with the "
+             "host/port/path/query their URL was built from. Hostile octets (byte-mutated, truncated, random, non-ASCII, NUL, up to 1 MiB with and "
+             "without terminator, the server's status-page/redirect/after side paths, flash policy requests) must never open and never let an "
+             "exception escape. The library's own client and server are paired over an option matrix (spec versions 10-18 x configured versions, "
+             "subprotocol lists, headers, PMCE offers x accept policies, origin allow-lists x null origin, maxConnections with history, "
+             "externalPort, trustXForwardedFor) under the same segmentations and must open exactly when the configuration allows, agree on "
+             "subprotocol/extension and carry one message each way. Held = no refuting event on the executions listed in the evidence; not a proof."),
+    "note": ("trusts vf/world.py fake transports + virtual clock and the classifier vf/c07_handshake.py (self-checked on the RFC's example handshake); grey "
+             "zones (int()/split()/strip() leniencies, obs-fold, bare CR/LF, control characters, HTTP/1.2+, absolute-form targets, non-canonical base64, "
+             "duplicate version/origin fields, malformed origins, Sec-WebSocket-Extensions split over several fields, obs-text inside handshake fields, "
+             "PMCE parameter corner cases, hybi-11/12 origin header name) are run for crash-freedom and post-conditions only; TLS, proxies "
+             "(STATE_PROXY_CONNECTING), Hixie-76 and real sockets are not driven"),
+    "technique": "runtime monitoring: real server/client endpoints driven with generated, mutated and hostile handshake octets under all read segmentations; outcomes compared with an independent RFC 6455 section 4 classifier (must-accept / must-reject / grey), escaped-exception monitor, virtual-clock timeout monitor, client x server option matrix",
+}
